@@ -10,7 +10,7 @@ ID = "C18"
 LEVEL = "model_checking"
 BATCH = 8
 RULE = ("for every labelled graph in the box (edgeless and disconnected included), stars with 1..5 leaves, and phi in "
-        "{0,1/4,1/2,3/4,1}, stateless DFS over every outcome of the per-edge comparison of a symbolic uniform with phi "
+        "{0,1/4,1/2,3/4,1} (plus 1/10 and 999/1000 for graphs with <= 4 edges), stateless DFS over every outcome of the per-edge comparison of a symbolic uniform with phi "
         "in the real bond_percolate (2^|E| leaves with exact probabilities); each leaf's value is compared with the "
         "largest-component fraction of exactly the retained subgraph and the retained-edge law with the product "
         "Bernoulli(phi) law; non-trivial = (graph, phi) with >= 2 edges and 0 < phi < 1")
@@ -20,6 +20,7 @@ ASSUMPTIONS = ["random.random() is used only through order comparisons (symbolic
                "keeps an edge is inferred from the value the code returns, not assumed",
                "phi on a rational grid; other real phi are not covered"]
 PHIS = [Fraction(0), Fraction(1, 4), Fraction(1, 2), Fraction(3, 4), Fraction(1)]
+EXTRA_PHIS = [Fraction(0.1), Fraction(0.999)]   # the floats 0.1 and 0.999 exactly (small graphs only)
 
 
 def instances(tier, seed):
@@ -41,6 +42,9 @@ def instances(tier, seed):
             (8, [(0, 1), (2, 3), (3, 4), (5, 6), (6, 7), (5, 7)]),            # K2 + P3 + triangle
             (7, [(0, 1), (0, 2), (0, 3), (1, 4), (4, 5), (5, 6)])):           # spider
         yield {"kind": "edges", "n": verts, "edges": es, "verts": list(range(verts))}
+    # vertex labels that are tuples, inserted in an unusual order
+    tl = [(1, 0), (0, 0), (0, 1), (2, 5)]
+    yield {"kind": "edges", "n": 4, "edges": [(tl[2], tl[0]), (tl[0], tl[3]), (tl[1], tl[2])], "verts": [tl[3], tl[1], tl[0], tl[2]]}
     if tier == "quick":
         for es in ([(0, 1), (1, 2), (2, 3), (3, 4), (0, 4)], [(0, 1), (0, 2), (1, 2), (3, 4)],
                    [(0, 1), (0, 2), (0, 3), (1, 2), (1, 3), (2, 3), (3, 4)]):
@@ -145,7 +149,7 @@ def run_instance(inst, tier):
     else:
         graphs = [(list(inst["verts"]), [tuple(e) for e in inst["edges"]])]
     for verts, edges in graphs:
-        for phi in PHIS:
+        for phi in PHIS + (EXTRA_PHIS if len(edges) <= 4 else []):
             check_graph(res, verts, edges, phi, {k: v for k, v in inst.items() if k != "masks"},
                         star=inst["kind"] == "star")
             if len(res.violations) >= 5:
